@@ -4895,6 +4895,9 @@ class DecLinConstr(LinConstr):
 
     def forall(self, ambset):
 
+        if getattr(ambset, 'model', None) is not self.model.top:
+            raise ValueError('Models mismatch.')
+
         self.ambset = ambset
 
         return self
@@ -4927,6 +4930,9 @@ class ExpPWConstr(PWConstr):
         self.ambset = ambset
 
     def forall(self, ambset):
+
+        if getattr(ambset, 'model', None) is not self.model:
+            raise ValueError('Models mismatch.')
 
         return ExpPWConstr(self.model, self.pieces, ambset)
 
